@@ -1,6 +1,7 @@
 ---------------------------- MODULE Trace_TlsWire ----------------------------
 (* C06 and C15, code -> specification (and replay of TLC-generated hellos):
      {"ev":"msg","kind":..,"abs":{...},"wire":[..],"back_same":bool,"origin":..}      compose vs reference, parse recovers
+     {"ev":"alt","kind":..,"abs":{...},"pad":k,"wire":[..],"parse":"ok"|error,"n":consumed,"back_same":bool}   second conformant encoding
      {"ev":"ja3","wire":[..],"ja3":"...","ja3_again":"...","ja3_reparsed":"..."}                                     *)
 EXTENDS TlsWire, Ja3, Json, IOUtils, TLCExt
 T == ndJsonDeserialize(IOEnv.TRACE_FILE)
@@ -11,6 +12,12 @@ CheckMsg(e) ==
   /\ Report(e.wire = Enc(e.kind, e.abs), <<"BAD", "layout-differs-from-specification", l>>)
   /\ Report(e.back_same, <<"BAD", "conformant-encoding-not-recovered", l>>)
   /\ Report(e.again_same, <<"BAD", "second-compose-differs", l>>)
+\* a second conformant encoding built by the harness (SSL 2.0 three-byte header with padding): it must be what the
+\* specification prescribes for the abstract value, the parser must accept all of it and recover that value
+CheckAlt(e) ==
+  /\ Report(e.wire = EncSsl2Padded(e.kind, e.abs, e.pad), <<"BAD", "harness-alternative-encoding-is-not-the-specified-one", l>>)
+  /\ Report(e.parse = "ok" /\ e.n = Len(e.wire), <<"BAD", "conformant-encoding-rejected", l>>)
+  /\ Report(e.parse # "ok" \/ e.back_same, <<"BAD", "conformant-encoding-not-recovered", l>>)
 CheckJa3(e) ==
   LET Match(kg, ds) == e.ja3 = Ja3Variant2(e.wire, kg, ds, FALSE) \/ e.ja3 = Ja3Variant2(e.wire, kg, ds, TRUE) IN
   /\ Report(e.ja3 = Ja3Variant2(e.wire, FALSE, FALSE, FALSE) \/ ~Match(FALSE, FALSE), <<"DEV", "ja3-drops-one-byte-grease-point-formats", l>>)
@@ -21,7 +28,7 @@ CheckJa3(e) ==
                      ELSE "ja3-differs-from-published-algorithm", l>>)
   /\ Report(e.ja3 = e.ja3_again /\ e.ja3 = e.ja3_reparsed, <<"BAD", "ja3-not-a-function-of-the-message", l>>)
 Init == l = 1
-Next == l <= Len(T) /\ (IF T[l].ev = "msg" THEN CheckMsg(T[l]) ELSE CheckJa3(T[l])) /\ l' = l + 1
+Next == l <= Len(T) /\ (CASE T[l].ev = "msg" -> CheckMsg(T[l]) [] T[l].ev = "alt" -> CheckAlt(T[l]) [] OTHER -> CheckJa3(T[l])) /\ l' = l + 1
 Spec == Init /\ [][Next]_l
 AllConsumed == TLCGet("stats").diameter = Len(T) + 1
 =============================================================================
